@@ -9,10 +9,15 @@
    [obs_ok]       the property itself (Model/Transparent.v): every answer through the stack
                   is [rel]ated to the direct answer, the backend received exactly the calls
                   of the table [expected_calls], both registries end in the same state.
-   [model_agrees] the direct answers are those of the ocimem model (Model/Mem.v), the answers
-                  through the stack are [view] of them, the traces follow the table, the
-                  backend's final state is the model's.  INTERIM: builder B2's composed model
-                  (Model/Stack.v) is to replace [view] and the table here.
+   [model_agrees] (a) [old_agrees]: the direct answers are those of the ocimem model (Model/Mem.v),
+                  the answers through the stack are [view] of them, the traces follow the table,
+                  the backend's final state is the model's (the proof-side link to [rel]:
+                  [corr_sound] is proved from this conjunct);
+                  (b) [stack_agrees]: the answers through the stack, their HTTP statuses, the
+                  backend's trace and its final state are those of the COMPOSED MODEL - the
+                  ociclient model in front of the ociserver model (per hop the case's options
+                  and page size) in front of the ocimem model (Model/Stack.v, Obs/StackRun.v,
+                  run on the case by Obs/C03Run.v).
    [known_case]   the case deviates from the property only in the recorded shapes.
 
    An operation that mentions an ill-formed name (repository, tag or digest, by the validity
@@ -21,6 +26,7 @@
 From Coq Require Import String.
 From OCI Require Export Model.Transparent.
 From OCI Require Import Proofs.Transparent.
+From OCI Require Import Obs.C03Run.
 
 Record case := {
   c_cfg : scfg;
@@ -31,7 +37,12 @@ Record case := {
   c_direct : list oresult;
   c_via : list oresult;
   c_trace : list (list bcall);
-  c_snap : list (op * oresult * oresult)
+  c_snap : list (op * oresult * oresult);
+  (* for the composed model (Obs/C03Run.v) *)
+  c_more : list (bytes * bytes * bytes);   (* (algorithm, content, hex) for sha384 / sha512 digests the history mentions *)
+  c_bufsz : nat;                  (* the buffer the harness reads BlobReaders with *)
+  c_vstat : list Z;               (* per operation: status of the HTTPError in the stack's error, 0 = none *)
+  c_stack : bool                  (* evaluate the composed model on this case *)
 }.
 
 (* ---- one operation in its context ---- *)
@@ -159,13 +170,39 @@ Definition mjudge_snap (l : list event) (e : op * oresult * oresult) : bool :=
   let '(o, a, b) := e in
   (well_shaped a && oresult_eqb b (snap_view o a)) || rel_direct l o a b.
 
-Definition model_agrees (c : case) : bool :=
+Definition old_agrees (c : case) : bool :=
   agrees_all (c_direct c ++ snap_a c) (model_results c)
   && match case_contexts c with
      | Some xs => forallb (fun x => mjudge (c_cfg c) (names_wf (c_orc c) (x_op x)) x) xs
      | None => false
      end
   && forallb (mjudge_snap (final_log c)) (c_snap c).
+
+(* ---- the composed model of the stack (Model/Stack.v through Obs/C03Run.v) ----
+
+   [stack_agrees]: for every operation of the history the answer the real stack gave ([c_via],
+   with the HTTP status in [c_vstat]) is the answer of ociclient's model in front of ociserver's
+   model (per hop the case's option set and page size) in front of the ocimem model, the calls
+   the recording backend received ([c_trace]) are the calls the registry behind the modelled
+   servers receives, with all arguments, and the registry behind ends in the state instance B
+   was read in ([c_snap]).  A stack with ocidebug is evaluated as the same stack without it. *)
+
+(* operations whose answer / trace the composed model is not compared on (each with its reason;
+   the harness counts them: harness/cmd/c03/cover.go mirrors this function) *)
+Definition stack_model_covers (c : case) (o : op) : bool :=
+  (* PushBlob with a descriptor size (> 0) different from the content length (> 0): net/http's
+     transport notices the wrong body length while it is sending, so the server may or may not
+     have received (part of) the body when the client gives up - a race in the real stack
+     (recorded finding push-size); the model's transport refuses the request before sending *)
+  negb (push_size_mismatch o).
+
+Definition stack_agrees (c : case) : bool :=
+  negb (c_stack c)
+  || (let '(m, ms) := stack_run (c_cfg c) (c_orc c) (c_more c) (c_bufsz c) (c_ops c) in
+      steps_agree (map (stack_model_covers c) (c_ops c)) (c_via c) (c_vstat c) (c_trace c) ms
+      && final_agrees (c_orc c) m (c_snap c)).
+
+Definition model_agrees (c : case) : bool := old_agrees c && stack_agrees c.
 
 (* ---- non-trivial cases ---- *)
 
@@ -282,9 +319,9 @@ Proof.
   rewrite (IH H2 E). reflexivity.
 Qed.
 
-Lemma corr_sound c : model_agrees c = true -> obs_ok c = true \/ known_case c = true.
+Lemma old_sound c : old_agrees c = true -> obs_ok c = true \/ known_case c = true.
 Proof.
-  unfold model_agrees, obs_ok, known_case. intros H.
+  unfold old_agrees, obs_ok, known_case. intros H.
   apply andb_true_iff in H as [H Hs]. apply andb_true_iff in H as [_ Hx].
   apply forallb_not_vbad_split. unfold verdicts.
   destruct (case_contexts c) as [xs|]; [|discriminate].
@@ -295,6 +332,12 @@ Proof.
   - rewrite forallb_forall in Hs. apply forallb_forall. intros v Hin.
     apply in_map_iff in Hin as [e [<- Hin]]. specialize (Hs e Hin).
     pose proof (mjudge_snap_not_bad _ _ Hs). destruct (judge_snap (final_log c) e); try reflexivity. now elim H.
+Qed.
+
+(* the comparison with the composed model is an additional requirement on [model_agrees] *)
+Lemma corr_sound c : model_agrees c = true -> obs_ok c = true \/ known_case c = true.
+Proof.
+  unfold model_agrees. intros H. apply andb_true_iff in H as [H _]. now apply old_sound.
 Qed.
 
 (* ---- what the driver reads ---- *)
@@ -326,6 +369,12 @@ Definition where_mjudge (c : case) : list (N * bool) :=
   | Some xs => bad_from 0 (fun x => if mjudge (c_cfg c) (names_wf (c_orc c) (x_op x)) x then None else Some true) xs
   | None => [(0%N, false)]
   end.
+Definition where_stack (c : case) :=
+  let '(m, ms) := stack_run (c_cfg c) (c_orc c) (c_more c) (c_bufsz c) (c_ops c) in
+  (steps_bad 0 (map (stack_model_covers c) (c_ops c)) (c_via c) (c_vstat c) (c_trace c) ms,
+   final_agrees (c_orc c) m (c_snap c)).
+Definition stack_says (c : case) (i : nat) :=
+  nth_error (snd (stack_run (c_cfg c) (c_orc c) (c_more c) (c_bufsz c) (c_ops c))) i.
 Definition slack_uses (c : case) : N :=
   match case_contexts c with
   | Some xs => countb (fun x => used_slack (c_cfg c) (x_log x) (x_op x) (x_d x) (x_v x)) xs
